@@ -1,5 +1,6 @@
 import VsbModel.Lemmas.Metadata
 import VsbModel.Props.C09
+import VsbModel.Model.Logical
 set_option linter.unusedSimpArgs false
 
 /-!
@@ -118,3 +119,69 @@ theorem records_paths (emptyHash : H) (known : List H) (last : Option (List (Rec
     rw [this]
 
 end Vsb.Dedup
+
+/-! ### Archive and manifest of one backup agree (the rendering of a logical backup) -/
+namespace Vsb.Restore
+variable {H β : Type} [DecidableEq H]
+
+def Entry.data : Entry β → List β
+  | .file _ _ d => d
+  | _ => []
+
+/-- The regular-file entries of an archive, in order. -/
+def fileEntries (es : List (Entry β)) : List (Entry β) :=
+  es.filter (fun e => match e with | .file _ _ _ => true | _ => false)
+
+/-- **archive_manifest_agree.**  In what `vsb backup` writes for any tree and any choice of stored files (`render`):
+the manifest has exactly one record per regular-file entry of the archive, in the same order, for the same path;
+a `unique` record's entry carries exactly `size` bytes hashing to `hash`; the entry of every other record carries no
+data; and the archive has the same entries, in the same order and with the same headers, as the tree (only file
+data is dropped for files not stored here). -/
+theorem archive_manifest_agree (hashOf : List β → H) (lb : LBackup β) :
+    ∃ recs, (render hashOf lb).manifest = some recs ∧
+      recs.length = (fileEntries (render hashOf lb).archive).length ∧
+      (∀ (i : Nat) (r : MRec H) (e : Entry β), recs[i]? = some r → (fileEntries (render hashOf lb).archive)[i]? = some e →
+        r.path = keyE e ∧
+        (r.unique = true → e.data.length = r.size ∧ hashOf e.data = r.hash) ∧
+        (r.unique = false → e.data = [])) ∧
+      (render hashOf lb).archive.map fpOf = lb.es.map fpOf := by
+  refine ⟨_, rfl, ?_, ?_, ?_⟩
+  · simp only [render, fileEntries]
+    generalize lb.es = es
+    induction es with
+    | nil => rfl
+    | cons e rest ih => cases e <;> simp [List.filterMap_cons, List.filter_cons, recG, stripE, ih]
+  · simp only [render, fileEntries]
+    generalize lb.es = es
+    induction es with
+    | nil => intro i r e h; simp at h
+    | cons x rest ih =>
+      intro i r e hr he
+      cases x with
+      | file p m d =>
+        simp only [List.filterMap_cons, recG, List.map_cons, stripE, List.filter_cons, if_true] at hr he
+        cases i with
+        | zero =>
+          simp only [List.getElem?_cons_zero, Option.some.injEq] at hr he
+          subst hr; subst he
+          refine ⟨rfl, ?_, ?_⟩
+          · intro hu
+            simp only [Bool.and_eq_true, decide_eq_true_eq] at hu
+            simp [Entry.data, hu.2]
+          · intro hu
+            by_cases hst : lb.stored p = true
+            · simp only [hst, Bool.and_true, decide_eq_false_iff_not, Decidable.not_not] at hu
+              simp [Entry.data, hst, List.eq_nil_of_length_eq_zero hu]
+            · simp [Entry.data, hst]
+        | succ i =>
+          simp only [List.getElem?_cons_succ] at hr he
+          exact ih i r e hr he
+      | dir p m => simpa [List.filterMap_cons, recG, stripE, List.filter_cons] using ih i r e (by simpa [List.filterMap_cons, recG] using hr) (by simpa [stripE, List.filter_cons] using he)
+      | symlink p m t => simpa [List.filterMap_cons, recG, stripE, List.filter_cons] using ih i r e (by simpa [List.filterMap_cons, recG] using hr) (by simpa [stripE, List.filter_cons] using he)
+      | other p => simpa [List.filterMap_cons, recG, stripE, List.filter_cons] using ih i r e (by simpa [List.filterMap_cons, recG] using hr) (by simpa [stripE, List.filter_cons] using he)
+  · simp only [render, List.map_map]
+    apply List.map_congr_left
+    intro e _
+    cases e <;> rfl
+
+end Vsb.Restore
